@@ -182,6 +182,8 @@ def run():
             for key, what in bad:
                 ck.violation(key, what, dict(invalid=name, override=ov, variant=var))
     ck.tables["lattice_rows"] = len(rows)
+    ck.tables["pairwise_coverage"] = cover.coverage(rows, FACTORS, 2)
+    ck.tables["threeway_coverage"] = cover.coverage(rows, FACTORS, 3)
     ck.require_events("valid configurations run to completion", "invalid configurations offered to the constructor")
     return ck.finish(
         rule="valid: greedy pairwise (quick) / 3-wise (thorough) covering array over 16 constructor options (kernel, resampler, clustering, normalize, "
